@@ -317,3 +317,151 @@ Definition replay_final (tbl : list (key * N)) (mt : list (N * N)) (qss : list (
       && run_all b (fun s => wfb s && negb (s_poisoned s) && cache_okb tbl (s_cache s)) (init [] qss) sched
       && cache_equiv (seq_cache b (s_cache s) (mkQ QNetwork 0 [] true :: post)) dump
   end.
+
+(* ------------------------------------------------------------------ fine-grained critical section *)
+(* In the model above Body is ONE event, so its atomicity is built in.  Here the critical section
+   is split into the three phases the Rust code goes through with the guard in hand,
+       Tick   (borrow_regex_manager: update_time, possibly cleanup)      mutates the cache
+       Probe  (RegexManager::matches: look the entries up)               reads the cache
+       Commit (use the entry found / compile and insert, produce answer) mutates the cache; may
+              panic when what Probe saw is no longer there (`v.regex.as_ref().unwrap()`)
+   each a separate event that other threads' events may interleave with, and the mutex can be
+   switched off ([locked = false]) to show what it is needed for.  C19_Proofs: with the lock every
+   fine-grained run is simulated by a run of the atomic model (so all theorems carry over);
+   without it a thread panics on a consistent cache. *)
+Inductive fpc (L : Type) : Type :=
+  FAcquire | FTick | FProbe | FCommit (l : L) | FRelease | FPost | FCrashed.
+Arguments FAcquire {L}.  Arguments FTick {L}.  Arguments FProbe {L}.  Arguments FCommit {L} l.
+Arguments FRelease {L}.  Arguments FPost {L}.  Arguments FCrashed {L}.
+
+Section FineProtocol.
+  Variables Q A L : Type.
+  Variable tick : cache -> Q -> cache.
+  Variable probe : cache -> Q -> L.
+  Variable commit : cache -> Q -> L -> res (cache * A).
+  Variable locked : bool.
+
+  (* what the three phases amount to when nothing interleaves *)
+  Definition atomic_body (c : cache) (q : Q) : res (cache * A) :=
+    commit (tick c q) q (probe (tick c q) q).
+
+  Record fthread := mkFT { ft_pc : fpc L; ft_todo : list Q; ft_done : list A }.
+  Record fstate := mkFS { fs_cache : cache; fs_poisoned : bool; fs_owner : option nat;
+                          fs_threads : list fthread }.
+
+  Definition fowner_is (s : fstate) (i : nat) : bool :=
+    match fs_owner s with Some j => Nat.eqb i j | None => false end.
+  Definition may_enter (s : fstate) : bool :=
+    if locked then match fs_owner s with None => true | Some _ => false end else true.
+  Definition is_mine (s : fstate) (i : nat) : bool := if locked then fowner_is s i else true.
+  Definition fupd (s : fstate) (i : nat) (t : fthread) : list fthread := set_nth (fs_threads s) i t.
+
+  Definition fstep (s : fstate) (i : nat) : option fstate :=
+    match nth_error (fs_threads s) i with
+    | None => None
+    | Some t =>
+      match ft_pc t, ft_todo t with
+      | FAcquire, _ :: _ =>
+          if may_enter s then
+            if locked && fs_poisoned s
+            then Some (mkFS (fs_cache s) true None (fupd s i (mkFT FCrashed (ft_todo t) (ft_done t))))
+            else Some (mkFS (fs_cache s) (fs_poisoned s) (Some i) (fupd s i (mkFT FTick (ft_todo t) (ft_done t))))
+          else None
+      | FTick, q :: _ =>
+          if is_mine s i
+          then Some (mkFS (tick (fs_cache s) q) (fs_poisoned s) (fs_owner s) (fupd s i (mkFT FProbe (ft_todo t) (ft_done t))))
+          else None
+      | FProbe, q :: _ =>
+          if is_mine s i
+          then Some (mkFS (fs_cache s) (fs_poisoned s) (fs_owner s)
+                          (fupd s i (mkFT (FCommit (probe (fs_cache s) q)) (ft_todo t) (ft_done t))))
+          else None
+      | FCommit l, q :: rest =>
+          if is_mine s i then
+            match commit (fs_cache s) q l with
+            | Ok (c', a) => Some (mkFS c' (fs_poisoned s) (fs_owner s) (fupd s i (mkFT FRelease rest (ft_done t ++ [a]))))
+            | Panic _ => Some (mkFS (fs_cache s) true None (fupd s i (mkFT FCrashed (ft_todo t) (ft_done t))))
+            end
+          else None
+      | FRelease, _ =>
+          if is_mine s i
+          then Some (mkFS (fs_cache s) (fs_poisoned s) None (fupd s i (mkFT FPost (ft_todo t) (ft_done t))))
+          else None
+      | FPost, _ => Some (mkFS (fs_cache s) (fs_poisoned s) (fs_owner s) (fupd s i (mkFT FAcquire (ft_todo t) (ft_done t))))
+      | _, _ => None
+      end
+    end.
+
+  Fixpoint frun (s : fstate) (sched : list nat) : option fstate :=
+    match sched with
+    | [] => Some s
+    | i :: r => match fstep s i with Some s' => frun s' r | None => None end
+    end.
+
+  Definition finit (c : cache) (qss : list (list Q)) : fstate :=
+    mkFS c false None (map (fun qs => mkFT FAcquire qs []) qss).
+
+  Definition in_critical (t : fthread) : bool :=
+    match ft_pc t with FTick | FProbe | FCommit _ | FRelease => true | _ => false end.
+  Definition fcrashed (t : fthread) : bool := match ft_pc t with FCrashed => true | _ => false end.
+  Definition fany_crashed (s : fstate) : bool := existsb fcrashed (fs_threads s).
+  Definition fanswers (s : fstate) : list (list A) := map ft_done (fs_threads s).
+  Definition ffinishedb (t : fthread) : bool :=
+    match ft_pc t, ft_todo t with
+    | FCrashed, _ => true
+    | FAcquire, [] => true
+    | _, _ => false
+    end.
+  Definition ffinal (s : fstate) : bool := forallb ffinishedb (fs_threads s).
+End FineProtocol.
+
+Arguments mkFT {Q A L}.  Arguments ft_pc {Q A L}.  Arguments ft_todo {Q A L}.  Arguments ft_done {Q A L}.
+Arguments mkFS {Q A L}.  Arguments fs_cache {Q A L}.  Arguments fs_poisoned {Q A L}.
+Arguments fs_owner {Q A L}.  Arguments fs_threads {Q A L}.
+Arguments fstep {Q A L}.  Arguments frun {Q A L}.  Arguments finit {Q A L}.  Arguments atomic_body {Q A L}.
+Arguments in_critical {Q A L}.  Arguments fany_crashed {Q A L}.  Arguments fcrashed {Q A L}.
+Arguments fanswers {Q A L}.  Arguments ffinal {Q A L}.  Arguments ffinishedb {Q A L}.  Arguments fupd {Q A L}.  Arguments fowner_is {Q A L}.
+
+(* the regex manager, phase by phase *)
+Section RegexPhases.
+  Variable compile : key -> N.
+  Variable is_match : N -> N -> bool.
+
+  Definition rm_tick (c : cache) (q : rq) : cache := if q_cleanup q then discard_all c else c.
+  Definition rm_probe (c : cache) (q : rq) : list (option entry) := map (lookup c) (q_touch q).
+
+  (* Entry::Occupied with a regex: `v.regex.as_ref().unwrap()`; otherwise compile and store *)
+  Definition commit_key (u : N) (st : res (cache * list bool)) (ks : key * option entry)
+    : res (cache * list bool) :=
+    match st with
+    | Panic w => Panic w
+    | Ok (c, acc) =>
+        match snd ks with
+        | Some (Compiled _) =>
+            match lookup c (fst ks) with
+            | Some (Compiled r) => Ok (c, acc ++ [is_match r u])
+            | _ => Panic "called `Option::unwrap()` on a `None` value"
+            end
+        | _ => Ok (set_entry c (fst ks) (Compiled (compile (fst ks))),
+                   acc ++ [is_match (compile (fst ks)) u])
+        end
+    end.
+
+  Definition rm_commit (c : cache) (q : rq) (l : list (option entry)) : res (cache * bool) :=
+    match fold_left (commit_key (q_url q)) (combine (q_touch q) l) (Ok (c, [])) with
+    | Ok (c', ms) => Ok (c', existsb id ms)
+    | Panic w => Panic w
+    end.
+End RegexPhases.
+
+(* replay of a phase-level schedule (Acquire, Tick, Probe, Commit, Release, Post events) of a
+   complete small run through the fine-grained model with the mutex on *)
+Definition freplay_complete (tbl : list (key * N)) (mt : list (N * N)) (qss : list (list rq))
+           (sched : list nat) (impl : list (list bool)) : bool :=
+  match frun rm_tick rm_probe (rm_commit (compile_of tbl) (match_of mt)) true (finit [] qss) sched with
+  | None => false
+  | Some fs =>
+      ffinal fs && negb (fany_crashed fs) && negb (fs_poisoned fs)
+      && list_eqb (list_eqb Bool.eqb) (fanswers fs) impl
+      && cache_okb tbl (fs_cache fs)
+  end.
